@@ -1,6 +1,10 @@
 package vaxis
 
-import "git.sr.ht/~rockorager/vaxis/zzverif"
+import (
+	"strings"
+
+	"git.sr.ht/~rockorager/vaxis/zzverif"
+)
 
 var verifTextSamples = []string{"", "a", "abc", "abcde", "ab\ncd", "a世b", "ab世cd", "世世世", "éa", "a\tb", "x\n\ny", "ab cd ef"}
 
@@ -19,6 +23,9 @@ func verifPlaceModel(text string, cols, rows int) (out []verifPlaced, col, row i
 			continue
 		}
 		w := ch.Width
+		if col > 0 && col+w > cols { // a cluster that does not fit in the rest of the row starts a new one
+			col, row = 0, row+1
+		}
 		if row < rows && col < cols {
 			out = append(out, verifPlaced{ch.Grapheme, col, row})
 		}
@@ -44,7 +51,7 @@ func VerifC11Print() {
 	zzverif.Assume(cols >= 1 && cols <= 4 && rows >= 1 && rows <= 3)
 	win := vx.Window().New(ox, oy, cols, rows)
 	cols, rows = win.Size()
-	op := zzverif.Choose("op", 3)
+	op := zzverif.Choose("op", 4)
 	zzverif.Terminates(3000)
 	var rcol, rrow int
 	switch op {
@@ -54,16 +61,24 @@ func VerifC11Print() {
 		win.PrintTruncate(0, Segment{Text: text})
 	case 2:
 		rcol, rrow = win.Wrap(Segment{Text: text})
+	case 3:
+		win.Println(0, Segment{Text: text})
 	}
 	inside := true
+	whole := true
 	for y := 0; y < H; y++ {
 		for x := 0; x < W; x++ {
 			changed := vx.screenNext.buf[y][x].Grapheme != ""
 			in := x >= ox && x < ox+cols && y >= oy && y < oy+rows
 			inside = inside && (!changed || in)
+			// a cluster occupies Width columns on the display: all of them lie in the window
+			// (a cluster wider than the whole window cannot satisfy this and is excepted)
+			cw := vx.screenNext.buf[y][x].Width
+			whole = whole && (!changed || cw > cols || x+cw <= ox+cols)
 		}
 	}
 	zzverif.Assert(inside, "text-stays-inside-window")
+	zzverif.Assert(whole, "no-cluster-straddles-the-window-edge")
 	switch op {
 	case 0:
 		want, wc, wr := verifPlaceModel(text, cols, rows)
@@ -75,14 +90,30 @@ func VerifC11Print() {
 		if wr <= rows { // once the text overflows the window Print may stop early
 			zzverif.Assert(rcol == wc && rrow == wr, "print-returns-the-final-position")
 		}
-	case 1:
+	case 1, 3:
 		rowOnly := true
 		for y := 1; y < rows; y++ {
 			for x := 0; x < cols; x++ {
 				rowOnly = rowOnly && vx.screenNext.buf[oy+y][ox+x].Grapheme == ""
 			}
 		}
-		zzverif.Assert(rowOnly, "truncate-writes-one-row")
+		zzverif.Assert(rowOnly, "truncate-and-println-write-one-row")
+		if op == 3 && !strings.Contains(text, "\n") {
+			// Println (documented for a single line of text): the longest prefix that fits,
+			// left to right
+			col, ok := 0, true
+			for _, ch := range Characters(text) {
+				if ch.Grapheme == "\n" || col+ch.Width > cols {
+					break
+				}
+				ok = ok && vx.screenNext.buf[oy][ox+col].Grapheme == ch.Grapheme
+				col += ch.Width
+			}
+			for ; col < cols; col++ {
+				ok = ok && vx.screenNext.buf[oy][ox+col].Grapheme == ""
+			}
+			zzverif.Assert(ok, "println-places-the-fitting-prefix")
+		}
 	case 2:
 		// reading order: the graphemes on the screen, row by row, are a subsequence of the
 		// text's non-break clusters in order
